@@ -9,12 +9,17 @@ other, `n = Lx·Ly·Lz + (Lx−1)(Ly−1)Lz + (Lx−1)Ly(Lz−1)`, `k = 1`, and 
 
 The rank clause is proved for all sizes at the operator level (`rank_family`): an explicit family
 of `n − k` generators — all vertices, the xy faces of the layer `z = 0`, all yz and xz faces — is
-GF(2)-independent (no non-empty sub-family has even X- and Z-parity on every location).  With
-`C01.rank_upper_bound` (commutation + pairing force rank ≤ n − k, every code) the rank is exactly
-`n − k`; the translation of `OpsIndep` into `Indep` on BSF rows is the operator/BSF bridge
-(`Proofs/OpComm.lean`), not repeated here.
+GF(2)-independent (no non-empty sub-family has even X- and Z-parity on every location).
+`valid_code` puts everything together through the generic bridges `Proofs/OpComm.lean`
+(`symp (to_bsf a) (to_bsf b) = opAntiCount a b mod 2` ⇒ `CommPairL` of the assembled rows) and
+`Proofs/Lat3DRankBridge.lean` / `Proofs/Lat2DRankBridge.lean` (parity-form independent family of
+`n − k` distinct generators ⇒ `HasRank (2n) rowsH (n − k)`): the matrices that
+`stabilizer_matrix`, `logicals_x`, `logicals_z` of the generic code model (`Model/Code.lean`, C02)
+assemble from this lattice model form a valid `[[n, 1]]` stabilizer code (`ValidCodeL`: all four
+clauses of C01, rank included) for EVERY size of the family.
 -/
 import PanqecVerif.Proofs.LatPlanar3DCodeRank
+import PanqecVerif.Proofs.Lat3DRankBridge
 
 namespace Panqec.C01Planar3DCode
 open Panqec.Cubic3D Panqec.Planar3DCode
@@ -97,6 +102,26 @@ theorem rank_family (Lx Ly Lz : Nat) (hLx : 1 ≤ Lx) (hLy : 1 ≤ Ly) (hLz : 1 
     exact rankFamily_length hLx hLy hLz
   · rw [lattice_getStab]; exact rankFamily_indep hLx hLy hLz
 
+/-- THE C01 STATEMENT FOR ALL SIZES (`Lx, Ly, Lz ≥ 1`): `stabilizer_matrix`, `logicals_x`,
+    `logicals_z` of the generic code model, applied to this lattice model, return (no `KeyError`)
+    matrices that form a valid `[[n, 1]]` stabilizer code
+    (`n = Lx·Ly·Lz + (Lx−1)(Ly−1)Lz + (Lx−1)Ly(Lz−1)`): generators pairwise commute, logicals
+    commute with the generators, `ω(X, Z) = 1`, `ω(X, X) = ω(Z, Z) = 0`, and the generators have
+    GF(2) rank `n − 1` -/
+theorem valid_code (Lx Ly Lz : Nat) (hLx : 1 ≤ Lx) (hLy : 1 ≤ Ly) (hLz : 1 ≤ Lz) :
+    stabilizerMatrix (lattice Lx Ly Lz).toCodeData = some (lattice Lx Ly Lz).rowsH ∧
+    logicalsX (lattice Lx Ly Lz).toCodeData = some (lattice Lx Ly Lz).rowsX ∧
+    logicalsZ (lattice Lx Ly Lz).toCodeData = some (lattice Lx Ly Lz).rowsZ ∧
+    ValidCodeL (Lx * Ly * Lz + (Lx - 1) * (Ly - 1) * Lz + (Lx - 1) * Ly * (Lz - 1)) 1
+      (lattice Lx Ly Lz).rowsH (lattice Lx Ly Lz).rowsX (lattice Lx Ly Lz).rowsZ := by
+  obtain ⟨B, hsub, hlen, hind⟩ := rank_family Lx Ly Lz hLx hLy hLz
+  have hwf := wf Lx Ly Lz hLx hLy hLz
+  have h := validCode_of_opsIndep (lattice Lx Ly Lz) hwf
+    (commPair Lx Ly Lz hLx hLy hLz) B (hwf.stabs_nodup.sublist hsub) (fun s hs => hsub.subset hs)
+    hlen hind
+  rw [n_formula, k_value] at h
+  exact h
+
 /-- CSS structure for every size: a stabilizer location is a `'vertex'` whose operator carries only Z
     (on at most 6 qubits) or a `'face'` whose operator carries only X (on at most 4 qubits). -/
 theorem stabilizer_shape (Lx Ly Lz : Nat) {s : Coord}
@@ -158,6 +183,11 @@ example : (lattice 1 1 1).WF := wf 1 1 1 (by decide) (by decide) (by decide)
 example : (lattice 2 3 4).CommPair := commPair 2 3 4 (by decide) (by decide) (by decide)
 example : (lattice 2 3 4).toCodeData.n = 41 := n_formula 2 3 4
 example : (rankFamily 2 3 4).length = 40 := by decide +kernel
+example : ValidCodeL 41 1 (lattice 2 3 4).rowsH (lattice 2 3 4).rowsX (lattice 2 3 4).rowsZ :=
+  (valid_code 2 3 4 (by decide) (by decide) (by decide)).2.2.2
+/-- the smallest member of the family: one qubit, no generator, rank 0 -/
+example : ValidCodeL 1 1 (lattice 1 1 1).rowsH (lattice 1 1 1).rowsX (lattice 1 1 1).rowsZ :=
+  (valid_code 1 1 1 (by decide) (by decide) (by decide)).2.2.2
 /-- `OpsIndep` is not vacuous: a family containing the same operator twice is dependent -/
 example : ¬ OpsIndep [uop [[1, 0, 0]] .X, uop [[1, 0, 0]] .X] := by
   intro h
